@@ -52,10 +52,12 @@ TAttachCall == Step("attach_call") /\ UNCHANGED <<avars, scen, pvars, call, wire
                /\ pendingJoin' = pendingJoin \cup {E.c}
 TAttachPending == Step("attach_pending") /\ UNCHANGED <<avars, scen, pvars, call, wires, blocked, want, wantN, told, racy, pendingJoin>> /\ NoFlag
                /\ held' = IF Fld(E, "gate", FALSE) THEN held \cup {E.c} ELSE held
-TAttachRet == Step("attach_ret") /\ UNCHANGED <<scen, pvars, call, wires, blocked, want, wantN, told, racy>> /\ held' = held \ {E.c} /\ pendingJoin' = pendingJoin \ {E.c} /\
-   IF E.res = "ok" THEN DoAdmit(E.c, E.id) /\ NoFlag
-   ELSE IF E.res = "panic" THEN UNCHANGED avars /\ Flag("C13/panic-on-failing-peer")
-   ELSE UNCHANGED avars /\ NoFlag
+TAttachRet == Step("attach_ret") /\ UNCHANGED <<scen, bag, pnote, limited, pubs, got, relAt, backlog, maxn, call, wires, blocked, want, wantN, told, racy>>
+   /\ held' = held \ {E.c} /\ pendingJoin' = pendingJoin \ {E.c} /\
+   \* a connection that announces the identity of an older one supersedes it: the older one no longer is a peer of the socket
+   IF E.res = "ok" THEN DoAdmit(E.c, E.id) /\ NoFlag /\ gone' = (IF Fld(E, "auto", TRUE) THEN gone ELSE gone \cup {c \in conn : ident[c] = E.id})
+   ELSE IF E.res = "panic" THEN UNCHANGED <<avars, gone>> /\ Flag("C13/panic-on-failing-peer")
+   ELSE UNCHANGED <<avars, gone>> /\ NoFlag
 
 \* a peer (subscriber) wrote a message: PUB processes it in the background, XPUB when recv returns it
 TWrote == Step("peer_wrote") /\ UNCHANGED <<scen, limited, gone, call, wires, blocked, pubs, got, relAt, backlog, maxn, subv>> /\ NoFlag /\ DoWrote(E.c, E.m) /\
